@@ -268,10 +268,6 @@ static int URI_FUNC(AddBaseUriImpl)(URI_TYPE(Uri) * absDest,
 								if (!URI_FUNC(RemoveDotSegmentsAbsolute)(absDest, memory)) {
 									return URI_ERROR_MALLOC;
 								}
-
-								if (!URI_FUNC(FixAmbiguity)(absDest, memory)) {
-									return URI_ERROR_MALLOC;
-								}
 	/* [25/32]				endif; */
 							}
 	/* [26/32]				T.query = R.query; */
@@ -287,6 +283,12 @@ static int URI_FUNC(AddBaseUriImpl)(URI_TYPE(Uri) * absDest,
 				}
 	/* [32/32]	T.fragment = R.fragment; */
 				absDest->fragment = relSource->fragment;
+
+	/* Whatever branch produced the path: if it starts with "//" and there is
+	 * no authority, put a "." segment in front so that it stays a path */
+	if (!URI_FUNC(FixAmbiguity)(absDest, memory)) {
+		return URI_ERROR_MALLOC;
+	}
 
 	return URI_SUCCESS;
 
